@@ -1,8 +1,134 @@
-(* C18 — placeholder while the proofs are being written: witnesses only (replaced below) *)
-From Coq Require Import List ZArith Bool Arith.
-From WH Require Import gen.Extracted model.Supervisor.
+(* C18 — supervised services restart after failure and never run twice at once (partial by nature).
+   Model: model/Supervisor.v — node/pkg/supervisor as atomic events: one handler call of the processor goroutine (processSchedule,
+   processDied, processGC, processKill), one call of a runnable into the supervisor (Signal, RunGroup; all under the supervisor
+   mutex), a runnable returning, a back-off sleeper waking up.  Everything in flight outside the tree is a token (pending schedule
+   request, sleeper, running instance, pending died request).  The theorems quantify over ALL event sequences: every delivery order
+   of the requests, every behaviour of the runnables (any calls in any state, returning nil / their context's error / an error /
+   panicking, with or without having signalled), every tree shape and depth.  Whether a DONE node is restartable only once its
+   runnable has exited is read from processGC (gen/Extracted.v: sup_done_ready_needs_exit). *)
+From Coq Require Import List ZArith Lia Bool Arith.
+From WH Require Import gen.Extracted model.Supervisor proofs.SupervisorProofs.
 Import ListNotations.
 Open Scope Z_scope.
-Theorem C18_placeholder : run sup_done_ready_needs_exit [] init = Ok init.
-Proof. reflexivity. Qed.
-Print Assumptions C18_placeholder.
+
+Notation sup_run := (run sup_done_ready_needs_exit).
+Notation sup_step := (step sup_done_ready_needs_exit).
+
+(* (1) AT NO TIME DO TWO INSTANCES OF THE SAME SERVICE RUN CONCURRENTLY — after every history, for every service *)
+Theorem C18_at_most_one_instance : forall evs s d, sup_run evs init = Ok s -> (running d s <= 1)%nat.
+Proof. exact at_most_one_instance. Qed.
+
+(* (1') the bookkeeping behind it, and the supervisor's own goroutine never panics (nodeByDN always finds the node), nor does a
+   runnable's call panic with the mutex held *)
+Theorem C18_invariant : forall evs s, sup_run evs init = Ok s -> Inv s.
+Proof. exact (fun evs s => run_inv evs init s inv_init). Qed.
+
+Theorem C18_no_supervisor_panic : forall evs, sup_run evs init <> ProcessorPanic /\ sup_run evs init <> LockedPanic.
+Proof. exact (fun evs => run_no_panic evs init inv_init). Qed.
+
+(* (2) a node is scheduled (again) only when no instance of it or of anything below it is running, and nothing but this one
+   schedule request is in flight for that subtree: the previous instances have all returned and their exits have been processed *)
+Theorem C18_scheduled_only_when_subtree_idle : forall evs s d s',
+  sup_run evs init = Ok s -> sup_step s (EProcSchedule d) = Ok s' ->
+  forall d', is_prefix d d' = true -> running d' s = 0%nat /\ (forall k, In (d', k) (s_toks s) -> d' = d /\ k = TSched).
+Proof. exact scheduled_only_when_subtree_idle. Qed.
+
+(* (3) THE RESTART RULE.  (a) A service returns (nil, an error, a captured panic; or its context's error while its context is not
+   cancelled) other than "completed and nil": the node is DEAD, its context and the contexts of the other members of its group are
+   cancelled, nobody else's cancel function is called. *)
+Theorem C18_unexpected_exit : forall d k t t' i, NoDup (map fst t) -> proc_died d k t = Some t' -> find d t = Some i ->
+  ~ (n_state i = SDone /\ k = RNil) -> ~ (cancelled d t = true /\ k = RCtx) ->
+  (exists j, find d t' = Some j /\ n_state j = SDead /\ n_flag j = true /\ n_exited j = true) /\
+  (forall x a, find x t = Some a -> x <> d ->
+     exists a', find x t' = Some a' /\ n_state a' = n_state a /\
+       n_flag a' = (n_flag a || match d with [] => false | _ => sibling_of d (n_group i) x a end)).
+Proof. exact died_unexpected. Qed.
+
+(* (b) As long as the supervisor has not been shut down: a DEAD or CANCELED node whose whole subtree has exited, whose parent's
+   context is live and which has no such ancestor ([can]) is reset by the next GC (NEW, fresh context, descendants dropped), its
+   sleeper offers the schedule request after the back-off (a back-off only after a death), and the runnable is started: one instance. *)
+Theorem C18_restart_goes_through : forall evs s d i,
+  sup_run evs init = Ok s -> s_killed s = false -> find d (s_tree s) = Some i -> can sup_done_ready_needs_exit d i (s_tree s) = true ->
+  exists s', sup_run [EGC; EBackoff d; EProcSchedule d] s = Ok s' /\ running d s' = 1%nat /\
+             (exists j, find d (s_tree s') = Some j /\ n_state j = SNew /\ n_flag j = false).
+Proof. exact restart_goes_through. Qed.
+
+Theorem C18_gc_restarts_exactly_the_marked : forall t d i, NoDup (map fst t) -> find d t = Some i -> can sup_done_ready_needs_exit d i t = true ->
+  find d (fst (gc sup_done_ready_needs_exit t)) = Some (reset_info i) /\
+  In (d, TSleep (match n_state i with SDead => true | _ => false end)) (snd (gc sup_done_ready_needs_exit t)) /\
+  (forall x, strict_prefix d x = true -> find x (fst (gc sup_done_ready_needs_exit t)) = None).
+Proof. exact gc_restarts. Qed.
+
+Theorem C18_gc_leaves_others : forall t x,
+  below_target (gc_targets sup_done_ready_needs_exit t) x = false -> is_target (gc_targets sup_done_ready_needs_exit t) x = false ->
+  find x (fst (gc sup_done_ready_needs_exit t)) = find x t.
+Proof. exact gc_leaves_others. Qed.
+
+(* (4) A SERVICE THAT SIGNALLED COMPLETION IS LEFT ALONE: once a DONE node's runnable has returned nil (exit processed), no event
+   changes it or puts anything in flight for it — except a GC that restarts a subtree it lies strictly inside *)
+Theorem C18_completed_left_alone : forall s e s' d, Inv s -> completed (s_tree s) d -> sup_step s e = Ok s' ->
+  (completed (s_tree s') d /\ tok d (s_toks s') = 0%nat) \/ (e = EGC /\ below_target (gc_targets sup_done_ready_needs_exit (s_tree s)) d = true).
+Proof. exact completed_left_alone. Qed.
+
+(* (5) CANCELLING THE SUPERVISOR'S CONTEXT STOPS EVERY SERVICE WITHOUT FURTHER RESTARTS: processKill cancels every context, the
+   processor handles nothing afterwards, and from then on the number of running instances of any service only goes down *)
+Theorem C18_kill_cancels_everything : forall s s', sup_step s EKill = Ok s' ->
+  s_killed s' = true /\ forall d i, find d (s_tree s') = Some i -> n_flag i = true /\ cancelled d (s_tree s') = true.
+Proof. exact (kill_cancels_everything sup_done_ready_needs_exit). Qed.
+
+Theorem C18_nothing_processed_after_kill : forall s, s_killed s = true ->
+  (forall d, sup_step s (EProcSchedule d) = Disabled) /\ (forall d k, sup_step s (EProcDied d k) = Disabled) /\ sup_step s EGC = Disabled /\ sup_step s EKill = Disabled.
+Proof. exact (after_kill sup_done_ready_needs_exit). Qed.
+
+Theorem C18_no_starts_after_kill : forall evs s s' d, s_killed s = true -> sup_run evs s = Ok s' -> s_killed s' = true /\ (running d s' <= running d s)%nat.
+Proof. exact (no_starts_after_kill sup_done_ready_needs_exit). Qed.
+
+(* (6) what the repair is for: with `curReady = true` for DONE nodes (the code before 981ee38) a runnable that signalled Done and is
+   still on its way out does not hold back the restart of its parent: processor panic, or two live instances *)
+Theorem C18_done_exit_in_flight_refuted_processor_panic :
+  run false (done_late_history ++ [EReturn [1; 2] RNil; EProcDied [1; 2] RNil]) init = ProcessorPanic.
+Proof. exact done_in_flight_processor_panic. Qed.
+
+Theorem C18_done_exit_in_flight_refuted_two_instances :
+  exists s, run false (done_late_history ++ [EBackoff [1]; EProcSchedule [1]; ERunGroup [1] [2]; EProcSchedule [1; 2]]) init = Ok s /\ running [1; 2] s = 2%nat.
+Proof. exact done_in_flight_two_instances. Qed.
+
+(* (7) RECORDED (open finding): "the service is started again" is refuted for services below a completed member of a group whose
+   sibling failed: w is CANCELED below d's cancelled context, d (DONE) is left alone, the failed f is running again — and the GC
+   has nothing to do, however often it runs *)
+Theorem C18_restart_refuted_below_completed_group_member :
+  exists s, sup_run orphan_history init = Ok s /\ s_killed s = false /\
+    option_map n_state (find [3; 5] (s_tree s)) = Some SCanceled /\ option_map n_state (find [3] (s_tree s)) = Some SDone /\
+    cancelled [3] (s_tree s) = true /\ running [4] s = 1%nat /\ running [] s = 1%nat /\
+    s_toks s = [([4], TInst); ([], TInst)] /\
+    forall n, sup_run (repeat EGC n) s = Ok s.
+Proof. exact below_completed_group_member_never_restarted. Qed.
+
+(* non-vacuity: a history with a group of two, a failure, the sibling's cancellation, the GC restarting both *)
+Definition ex_history : list ev :=
+  [EProcSchedule []; ERunGroup [] [1; 2]; ESignalHealthy []; EProcSchedule [2]; EProcSchedule [1]; ESignalHealthy [1]; ESignalHealthy [2];
+   EReturn [1] RErr; EProcDied [1] RErr; EReturn [2] RCtx; EProcDied [2] RCtx].
+Example C18_example :
+  exists s, sup_run ex_history init = Ok s /\ s_killed s = false /\
+    option_map n_state (find [1] (s_tree s)) = Some SDead /\ option_map n_state (find [2] (s_tree s)) = Some SCanceled /\
+    (exists i, find [1] (s_tree s) = Some i /\ can sup_done_ready_needs_exit [1] i (s_tree s) = true) /\
+    (exists i, find [2] (s_tree s) = Some i /\ can sup_done_ready_needs_exit [2] i (s_tree s) = true) /\
+    gc_targets sup_done_ready_needs_exit (s_tree s) = [([1], true); ([2], false)] /\
+    running [] s = 1%nat.
+Proof. eexists. split; [vm_compute; reflexivity|]. vm_compute. repeat split; try reflexivity; eexists; split; reflexivity. Qed.
+
+Print Assumptions C18_at_most_one_instance.
+Print Assumptions C18_invariant.
+Print Assumptions C18_no_supervisor_panic.
+Print Assumptions C18_scheduled_only_when_subtree_idle.
+Print Assumptions C18_unexpected_exit.
+Print Assumptions C18_restart_goes_through.
+Print Assumptions C18_gc_restarts_exactly_the_marked.
+Print Assumptions C18_gc_leaves_others.
+Print Assumptions C18_completed_left_alone.
+Print Assumptions C18_kill_cancels_everything.
+Print Assumptions C18_nothing_processed_after_kill.
+Print Assumptions C18_no_starts_after_kill.
+Print Assumptions C18_done_exit_in_flight_refuted_processor_panic.
+Print Assumptions C18_done_exit_in_flight_refuted_two_instances.
+Print Assumptions C18_restart_refuted_below_completed_group_member.
